@@ -598,7 +598,11 @@ class AsyncFIXConnection:
                 msg_logon.set(FTag.HeartBtInt, logon_msg[FTag.HeartBtInt])
                 await self.send_msg(msg_logon)
 
-        if msg_seq_num == self._session.next_num_in:
+        if self._connection_state == ConnectionState.RESENDREQ_AWAITING:
+            # a Logon() in the middle of a session whose gap is still being filled:
+            #  the ResendRequest that is out remains the only one
+            pass
+        elif msg_seq_num == self._session.next_num_in:
             await self._state_set(ConnectionState.ACTIVE)
         else:
             await self._state_set(ConnectionState.RECV_SEQNUM_TOO_HIGH)
@@ -901,7 +905,17 @@ class AsyncFIXConnection:
             if msg.msg_type == FMsg.LOGON:
                 await self._process_logon(msg)
             elif msg.msg_type == FMsg.SEQUENCERESET:
-                if msg.get(FTag.GapFillFlag, None) == "Y" and (
+                new_seq_no = msg.get(FTag.NewSeqNo, "")
+                if not (
+                    isinstance(new_seq_no, str)
+                    and new_seq_no.isascii()
+                    and new_seq_no.isdigit()
+                ):
+                    # no readable NewSeqNo: there is nothing to reset to, the
+                    #  expected number stays where it is
+                    self.log.warning(f"SequenceReset without NewSeqNo ignored: {msg}")
+                    misplaced_gap_fill = True
+                elif msg.get(FTag.GapFillFlag, None) == "Y" and (
                     int(msg[FTag.MsgSeqNum]) != self._session.next_num_in
                     or int(msg.get(FTag.NewSeqNo, 0)) <= int(msg[FTag.MsgSeqNum])
                 ):
